@@ -671,3 +671,30 @@ def random_spec(rnd, i):
         oe.append(['y', 0, [gn() for _ in range(ldr[0]['shape'][0])]])
     return dict(name='rand%d-%s' % (i, kind), dv=[dict(shape=[nx])], rv=[[nz]], ldr=ldr, sets=[s],
                 bounds=[dict(x=0, lo=-4, hi=4)], rows=rows, obj=dict(kind=okind, set=0, e=oe))
+
+
+def random_pw_spec(seed, i):
+    """A random member whose first '<=' row and (for minmax) whose objective are PIECEWISE: maxof(row, second random piece).
+    Own random stream (does not shift the members of `random_spec`)."""
+    import random
+    rnd = random.Random('pw-%s-%d' % (seed, i))
+    spec = random_spec(rnd, i)
+    spec['name'] = 'randpw%d-%s' % (i, spec['name'].split('-', 1)[1])
+    nx = spec['dv'][0]['shape'][0]
+    nz = spec['rv'][0][0]
+    g = lambda: rnd.choice(GRID)
+
+    def piece():
+        M = [[g() if rnd.random() < 0.6 else 0 for _ in range(nz)] for _ in range(nx)]
+        return [['x', 0, [g() for _ in range(nx)]], ['xz', 0, 0, M], ['z', 0, [g() for _ in range(nz)]]]
+
+    for row in spec['rows']:
+        if row['sense'] == 'le' and not isinstance(row['rhs'], list) and not any(t[0] in ('y', 'vy', 'vx', 'Bz') for t in row['e']):
+            row['pieces'] = [row.pop('e'), piece()] + ([piece()] if rnd.random() < 0.4 else [])
+            row['e'] = None
+            break
+    ob = spec['obj']
+    if ob['kind'] == 'minmax' and not spec['ldr'] and rnd.random() < 0.6:
+        ob['pieces'] = [ob.pop('e'), piece()]
+        ob['pw'] = 'max'
+    return spec
